@@ -52,19 +52,34 @@ const KEYS: [&str; 25] = [
     "duration",
 ];
 
-fn mk_style(key: &str, obs: &Arc<StdMutex<ObsShared>>, aux: &Arc<StdMutex<ObsShared>>, two_line: bool) -> ProgressStyle {
-    mk_style_gen(key, obs, aux, two_line, 0)
+fn mk_style(key: &str, obs: &Arc<StdMutex<ObsShared>>, aux: &Arc<StdMutex<ObsShared>>, two_line: bool, tick_kind: u64) -> ProgressStyle {
+    mk_style_gen(&format!("<{{{key}}}>"), obs, aux, two_line, 0, tick_kind)
+}
+
+/// The tick strings of a style of kind `tick_kind` as the harness knows them (None: the library's
+/// defaults are left in place and its own getters are the reference)
+fn tick_list(tick_kind: u64) -> Option<Vec<String>> {
+    match tick_kind % 8 {
+        0 | 4 => Some(["0", "1", "2", "3", "4", "5", "6", "7", "8", "9", "F"].iter().map(|s| s.to_string()).collect()),
+        1 => Some("abc\u{e9}efgX".chars().map(|c| c.to_string()).collect()),
+        2 => Some(vec!["on".into(), "OFF".into()]),
+        3 => None,
+        k => Some((0..k).map(|i| format!("s{i}_")).chain(std::iter::once("END".to_string())).collect()),
+    }
 }
 
 /// `gen` tells the tracker instances of successive styles apart (they share their counters)
-fn mk_style_gen(key: &str, obs: &Arc<StdMutex<ObsShared>>, aux: &Arc<StdMutex<ObsShared>>, two_line: bool, gen: u64) -> ProgressStyle {
+fn mk_style_gen(field: &str, obs: &Arc<StdMutex<ObsShared>>, aux: &Arc<StdMutex<ObsShared>>, two_line: bool, gen: u64, tick_kind: u64) -> ProgressStyle {
     // (optionally below a line that is filled up by the message: the key under test is then the
     // first placeholder of a later template line)
-    let t = if two_line { format!("{{wide_msg}}\n<{{{key}}}>{{obs}}") } else { format!("<{{{key}}}>{{obs}}") };
-    ProgressStyle::with_template(&t)
-        .unwrap()
-        .tick_strings(&["0", "1", "2", "3", "4", "5", "6", "7", "8", "9", "F"])
-        .with_key(
+    let t = if two_line { format!("{{wide_msg}}\n{field}{{obs}}") } else { format!("{field}{{obs}}") };
+    let st = ProgressStyle::with_template(&t).unwrap();
+    let st = match (tick_kind % 8, tick_list(tick_kind)) {
+        (_, None) => st,
+        (1, Some(l)) => st.tick_chars(&l.concat()),
+        (_, Some(l)) => st.tick_strings(&l.iter().map(|s| s.as_str()).collect::<Vec<_>>()),
+    };
+    st.with_key(
             "obs",
             Obs {
                 shared: obs.clone(),
@@ -84,6 +99,58 @@ fn mk_style_gen(key: &str, obs: &Arc<StdMutex<ObsShared>>, aux: &Arc<StdMutex<Ob
         )
 }
 
+/// What `{key}` must render for the bar as it is now: the getter pushed through the public
+/// formatter the docs name (None for the percent keys, which are compared numerically)
+fn expected_value(key: &str, pb: &ProgressBar, ticks: u64, tick_kind: u64) -> Option<String> {
+    let (pos, length) = (pb.position(), pb.length());
+    let len_or_pos = length.unwrap_or(pos);
+    let per_sec = pb.per_sec();
+    match key {
+        "pos" => Some(pos.to_string()),
+        "human_pos" => Some(HumanCount(pos).to_string()),
+        "len" => Some(len_or_pos.to_string()),
+        "human_len" => Some(HumanCount(len_or_pos).to_string()),
+        "bytes" => Some(HumanBytes(pos).to_string()),
+        "binary_bytes" => Some(BinaryBytes(pos).to_string()),
+        "total_bytes" => Some(HumanBytes(len_or_pos).to_string()),
+        "binary_total_bytes" => Some(BinaryBytes(len_or_pos).to_string()),
+        "decimal_bytes" => Some(DecimalBytes(pos).to_string()),
+        "decimal_total_bytes" => Some(DecimalBytes(len_or_pos).to_string()),
+        "elapsed_precise" => Some(FormattedDuration(pb.elapsed()).to_string()),
+        "elapsed" => Some(format!("{:#}", HumanDuration(pb.elapsed()))),
+        "eta_precise" => Some(FormattedDuration(pb.eta()).to_string()),
+        "eta" => Some(format!("{:#}", HumanDuration(pb.eta()))),
+        "duration_precise" => Some(FormattedDuration(pb.duration()).to_string()),
+        "duration" => Some(format!("{:#}", HumanDuration(pb.duration()))),
+        "per_sec" => Some(format!("{}/s", HumanFloatCount(per_sec))),
+        "bytes_per_sec" => Some(format!("{}/s", HumanBytes(per_sec as u64))),
+        "decimal_bytes_per_sec" => Some(format!("{}/s", DecimalBytes(per_sec as u64))),
+        "binary_bytes_per_sec" => Some(format!("{}/s", BinaryBytes(per_sec as u64))),
+        "msg" => Some(pb.message()),
+        "prefix" => Some(pb.prefix()),
+        "spinner" => Some(match tick_list(tick_kind) {
+            // the strings the style was built with: all but the last one in turn, the last one
+            // once finished
+            Some(l) => {
+                if pb.is_finished() {
+                    l[l.len() - 1].clone()
+                } else {
+                    l[(ticks % (l.len() as u64 - 1)) as usize].clone()
+                }
+            }
+            None => {
+                let st = pb.style();
+                if pb.is_finished() {
+                    st.get_final_tick_str().to_string()
+                } else {
+                    st.get_tick_str(ticks).to_string()
+                }
+            }
+        }),
+        _ => None,
+    }
+}
+
 fn exec(sc: &Scenario) -> Report {
     let sc2 = sc.clone();
     let (res, out) = World::run(Config::sequential(sc.seed), move || {
@@ -91,11 +158,39 @@ fn exec(sc: &Scenario) -> Report {
         let mut r = Report::default();
         let term = SimTerm::new(250, 10);
         let len = if sc.c("len_known") == 1 { Some(sc.c("len0")) } else { None };
-        let pb = ProgressBar::with_draw_target(len, ProgressDrawTarget::term_like(Box::new(term.clone())))
-            .with_finish(finish_kind(sc.c("on_finish"), "fin"));
+        let tick_kind = sc.c("tick_kind");
+        // (one bar in four is a member of a MultiProgress: the same values must come out)
+        let mp = (sc.c("in_multi") == 1).then(|| indicatif::MultiProgress::with_draw_target(ProgressDrawTarget::term_like(Box::new(term.clone()))));
+        let pb = match &mp {
+            Some(mp) => mp.add(match len {
+                Some(l) => ProgressBar::new(l),
+                None => ProgressBar::no_length(),
+            }),
+            None => match sc.c("ctor") {
+                // (the other constructors, retargeted to the simulated terminal before the first draw)
+                1 => {
+                    let pb = match len {
+                        Some(l) => ProgressBar::new(l),
+                        None => ProgressBar::no_length(),
+                    };
+                    pb.set_draw_target(ProgressDrawTarget::term_like(Box::new(term.clone())));
+                    pb
+                }
+                2 => {
+                    let pb = ProgressBar::new_spinner();
+                    pb.set_draw_target(ProgressDrawTarget::term_like(Box::new(term.clone())));
+                    if let Some(l) = len {
+                        pb.set_length(l);
+                    }
+                    pb
+                }
+                _ => ProgressBar::with_draw_target(len, ProgressDrawTarget::term_like(Box::new(term.clone()))),
+            },
+        }
+        .with_finish(finish_kind(sc.c("on_finish"), "fin"));
         let obs = Arc::new(StdMutex::new(ObsShared::default()));
         let aux = Arc::new(StdMutex::new(ObsShared::default()));
-        pb.set_style(mk_style("pos", &obs, &aux, false));
+        pb.set_style(mk_style("pos", &obs, &aux, false, tick_kind));
         let mut ticks: u64 = 0;
         let mut resets: u64 = 0;
         let mut finished = false;
@@ -199,7 +294,7 @@ fn exec(sc: &Scenario) -> Report {
             let ks = key.to_string();
             let drawn = call(|| {
                 style_gen += 1;
-                pb.set_style(mk_style_gen(&ks, &obs, &aux, sc.c("two_line") == 1, style_gen));
+                pb.set_style(mk_style_gen(&format!("<{{{ks}}}>"), &obs, &aux, sc.c("two_line") == 1, style_gen, tick_kind));
                 pb.force_draw();
             });
             if let Err(p) = drawn {
@@ -247,37 +342,7 @@ fn exec(sc: &Scenario) -> Report {
                     }
                 }
             }
-            let len_or_pos = length.unwrap_or(pos);
-            let per_sec = pb.per_sec();
-            let expect: Option<String> = match key {
-                "pos" => Some(pos.to_string()),
-                "human_pos" => Some(HumanCount(pos).to_string()),
-                "len" => Some(len_or_pos.to_string()),
-                "human_len" => Some(HumanCount(len_or_pos).to_string()),
-                "bytes" => Some(HumanBytes(pos).to_string()),
-                "binary_bytes" => Some(BinaryBytes(pos).to_string()),
-                "total_bytes" => Some(HumanBytes(len_or_pos).to_string()),
-                "binary_total_bytes" => Some(BinaryBytes(len_or_pos).to_string()),
-                "decimal_bytes" => Some(DecimalBytes(pos).to_string()),
-                "decimal_total_bytes" => Some(DecimalBytes(len_or_pos).to_string()),
-                "elapsed_precise" => Some(FormattedDuration(pb.elapsed()).to_string()),
-                "elapsed" => Some(format!("{:#}", HumanDuration(pb.elapsed()))),
-                "eta_precise" => Some(FormattedDuration(pb.eta()).to_string()),
-                "eta" => Some(format!("{:#}", HumanDuration(pb.eta()))),
-                "duration_precise" => Some(FormattedDuration(pb.duration()).to_string()),
-                "duration" => Some(format!("{:#}", HumanDuration(pb.duration()))),
-                "per_sec" => Some(format!("{}/s", HumanFloatCount(per_sec))),
-                "bytes_per_sec" => Some(format!("{}/s", HumanBytes(per_sec as u64))),
-                "decimal_bytes_per_sec" => Some(format!("{}/s", DecimalBytes(per_sec as u64))),
-                "binary_bytes_per_sec" => Some(format!("{}/s", BinaryBytes(per_sec as u64))),
-                "msg" => Some(pb.message()),
-                "prefix" => Some(pb.prefix()),
-                "spinner" => {
-                    let st = pb.style();
-                    Some(if pb.is_finished() { st.get_final_tick_str().to_string() } else { st.get_tick_str(ticks).to_string() })
-                }
-                _ => None,
-            };
+            let expect: Option<String> = expected_value(key, &pb, ticks, tick_kind);
             if let Some(e) = expect {
                 // the terminal right-trims; compare trimmed
                 if shown.trim_end() != e.trim_end() {
@@ -312,6 +377,40 @@ fn exec(sc: &Scenario) -> Report {
             }
             r.probe("keys_compared");
         }
+        // several keys in one template: each field shows its own value, in template order
+        let cleared0 = finished && pb.is_finished() && term.transcript().last().map_or(true, |l| l.is_empty());
+        if r.violation.is_none() && !cleared0 {
+            const EXACT: [&str; 23] = [
+                "spinner", "prefix", "msg", "pos", "human_pos", "len", "human_len", "bytes", "total_bytes", "decimal_bytes", "decimal_total_bytes",
+                "binary_bytes", "binary_total_bytes", "elapsed_precise", "elapsed", "per_sec", "bytes_per_sec", "decimal_bytes_per_sec",
+                "binary_bytes_per_sec", "eta_precise", "eta", "duration_precise", "duration",
+            ];
+            let mut pr = Rng::new(sc.seed ^ 0x636f6d626f);
+            for _ in 0..3 {
+                let n = pr.range(2, 5) as usize;
+                let keys: Vec<&str> = (0..n).map(|_| *pr.pick(&EXACT)).collect();
+                let field = format!("<{}>", keys.iter().map(|k| format!("{{{k}}}")).collect::<Vec<_>>().join("|"));
+                let drawn = call(|| {
+                    style_gen += 1;
+                    pb.set_style(mk_style_gen(&field, &obs, &aux, sc.c("two_line") == 1, style_gen, tick_kind));
+                    pb.force_draw();
+                });
+                if let Err(p) = drawn {
+                    r.violate("C11.no_panic", format!("drawing {field} panicked: {p}"));
+                    return r;
+                }
+                let line = term.transcript().last().cloned().unwrap_or_default();
+                let e = format!("<{}>", keys.iter().map(|k| expected_value(k, &pb, ticks, tick_kind).unwrap_or_default()).collect::<Vec<_>>().join("|"));
+                if !line.starts_with(&e) {
+                    r.violate(
+                        "C11.key_value",
+                        format!("template {field} rendered {line:?} but the bar state at that instant gives {e:?} (pos={} len={:?} finished={} ticks={ticks})", pb.position(), pb.length(), pb.is_finished()),
+                    );
+                    return r;
+                }
+                r.probe("combined_templates_compared");
+            }
+        }
         // a custom key wins over a built-in key of the same name, and a key registered a second
         // time replaces the tracker registered first (both at the frozen instant)
         let cleared = finished && pb.is_finished() && term.transcript().last().map_or(true, |l| l.is_empty());
@@ -319,7 +418,7 @@ fn exec(sc: &Scenario) -> Report {
             let name = ["pos", "len", "eta", "msg", "percent", "elapsed"][(sc.seed % 6) as usize];
             let drawn = call(|| {
                 style_gen += 1;
-                let st = mk_style_gen(name, &obs, &aux, sc.c("two_line") == 1, style_gen)
+                let st = mk_style_gen(&format!("<{{{name}}}>"), &obs, &aux, sc.c("two_line") == 1, style_gen, tick_kind)
                     .with_key(name, |_: &indicatif::ProgressState, w: &mut dyn std::fmt::Write| write!(w, "#own#").unwrap());
                 pb.set_style(st);
                 pb.force_draw();
@@ -398,7 +497,7 @@ impl Check for C11 {
         "C11"
     }
     fn rule_text(&self) -> String {
-        "A random history (inc/set_position/update with positions and lengths including 0, len < pos, unknown length, u64::MAX and neighbours; ticks; messages and prefixes; reset/reset_eta/reset_elapsed; every finish variant; clock gaps from 1 ms to hours, >= 1 ms between position calls so that the tick count is determined) is followed by a frozen virtual instant at which, for each of 25 documented keys (spinner, prefix, msg, pos, human_pos, len, human_len, percent, percent_precise, bytes family, elapsed*, per_sec, *_bytes_per_sec, eta*, duration*), a template <{key}> is set, a forced draw is captured from the simulated terminal and compared with the getter value pushed through the public formatter the docs name (percent: within rounding of 100*pos/len clamped; spinner: style.get_tick_str(tick count) / final tick string once finished; missing length renders as the position). The ProgressState handed to a custom key at each draw must agree with the getters, the tracker must be ticked with the bar (in one run out of four also by a steady ticker left running for six intervals) and reset exactly as often as the bar, with the bar's state after the reset. Non-trivial: history of >= 2 calls. Distinct = distinct scenario hash.".into()
+        "A random history (inc/set_position/update with positions and lengths including 0, len < pos, unknown length, u64::MAX and neighbours; ticks; messages and prefixes; reset/reset_eta/reset_elapsed; every finish variant; clock gaps from 1 ms to hours, >= 1 ms between position calls so that the tick count is determined) is followed by a frozen virtual instant at which, for each of 25 documented keys (spinner, prefix, msg, pos, human_pos, len, human_len, percent, percent_precise, bytes family, elapsed*, per_sec, *_bytes_per_sec, eta*, duration*), a template <{key}> is set, a forced draw is captured from the simulated terminal and compared with the getter value pushed through the public formatter the docs name (percent: within rounding of 100*pos/len clamped; spinner: style.get_tick_str(tick count) / final tick string once finished; missing length renders as the position; the tick strings come from tick_strings with 2..11 entries, tick_chars, or the defaults, and the expected one is picked from the list the style was built with, not through the library's getter). Then three templates with 2..5 keys each (<{k1}|{k2}|..>) are drawn at the same instant and every field must show its own value in template order. One bar in four is a member of a MultiProgress; the bar is made by with_draw_target, by new()/no_length() or by new_spinner() followed by set_draw_target. The ProgressState handed to a custom key at each draw must agree with the getters, the tracker must be ticked with the bar (in one run out of four also by a steady ticker left running for six intervals) and reset exactly as often as the bar, with the bar's state after the reset. Non-trivial: history of >= 2 calls. Distinct = distinct scenario hash.".into()
     }
     fn assumptions(&self) -> Vec<String> {
         vec![
@@ -417,6 +516,9 @@ impl Check for C11 {
         sc.set("len_known", rng.chance(4, 5) as u64);
         sc.set("len0", boundary_u64(rng));
         sc.set("two_line", rng.chance(1, 4) as u64);
+        sc.set("tick_kind", rng.below(8));
+        sc.set("in_multi", rng.chance(1, 4) as u64);
+        sc.set("ctor", rng.below(3));
         sc.set("ticker_phase", rng.chance(1, 4) as u64);
         sc.set("on_finish", rng.below(5));
         sc.set("final_gap", *rng.pick(&[1, 1_000, 1_000_000, 1_500_000_000, 90_000_000_000, 100_000_000_000_000]));
@@ -447,6 +549,6 @@ impl Check for C11 {
         exec(sc)
     }
     fn shrink_cfg(&self) -> Vec<(&'static str, u64)> {
-        vec![("len0", 0), ("final_gap", 1), ("two_line", 0), ("ticker_phase", 0)]
+        vec![("len0", 0), ("final_gap", 1), ("two_line", 0), ("ticker_phase", 0), ("tick_kind", 0), ("in_multi", 0), ("ctor", 0)]
     }
 }
